@@ -6,7 +6,7 @@ use bump_scope::{
     BaseAllocator, BumpScope, MutBumpString, MutBumpVec, MutBumpVecRev,
     settings::BumpAllocatorSettings,
     stats::Stats,
-    traits::MutBumpAllocatorTypedScope,
+    traits::{MutBumpAllocatorCoreScope, MutBumpAllocatorTypedScope},
 };
 use std::panic::{AssertUnwindSafe, catch_unwind};
 use std::ptr::NonNull;
@@ -23,6 +23,9 @@ pub enum MutKind {
     IterMutRev,
     FmtMut,
     CstrFmtMut,
+    /// MutBumpVec / MutBumpVecRev whose allocator is `&mut dyn MutBumpAllocatorCoreScope` (trait-object path)
+    VecDyn,
+    VecRevDyn,
     /// `alloc_try_with_mut`: Finalise = closure returns Ok, Drop = closure returns Err, Unwind = closure panics
     TryWithMut,
 }
@@ -468,6 +471,69 @@ where
     snap(Some(fin), fin, "end", rep);
 }
 
+fn run_vec_dyn<'a, A, S, T: Elem>(scope: &mut BumpScope<'a, A, S>, spec: &MutSpec, rep: &mut MutReport)
+where
+    A: BaseAllocator<S::GuaranteedAllocated> + SlabKind,
+    S: BumpAllocatorSettings + 'static,
+{
+    rep.elem_size = size_of::<T>();
+    rep.elem_align = align_of::<T>();
+    let rev = spec.kind == MutKind::VecRevDyn;
+    let mut pushed = 0usize;
+    macro_rules! body {
+        ($Vec:ident) => {{
+            catch_unwind(AssertUnwindSafe(|| {
+                let d: &mut dyn MutBumpAllocatorCoreScope<'a> = &mut *scope;
+                let mut v: $Vec<T, &mut dyn MutBumpAllocatorCoreScope<'a>> = if spec.cap == 255 { $Vec::new_in(d) } else { $Vec::with_capacity_in(spec.cap as usize, d) };
+                for _ in 0..spec.pushes {
+                    v.push(T::make(pushed));
+                    pushed += 1;
+                }
+                if let MutExtra::Reserve(n) = spec.extra {
+                    v.reserve(n as usize);
+                }
+                match spec.end {
+                    MutEnd::Drop => {
+                        drop(v);
+                        None
+                    }
+                    MutEnd::Unwind => {
+                        v.push_with(|| std::panic::resume_unwind(Box::new(CallbackPanic)));
+                        None
+                    }
+                    MutEnd::Finalise | MutEnd::FinaliseCstr => {
+                        let s: &'a mut [T] = v.into_slice();
+                        Some((NonNull::new(s.as_mut_ptr()).unwrap(), s.len()))
+                    }
+                    MutEnd::FinaliseBoxed => {
+                        let b = v.into_boxed_slice();
+                        let len = b.len();
+                        Some((b.into_raw().cast::<T>(), len))
+                    }
+                }
+            }))
+        }};
+    }
+    let r = if rev { body!(MutBumpVecRev) } else { body!(MutBumpVec) };
+    match r {
+        Ok(Some((ptr, len))) => {
+            rep.len = len;
+            rep.result = Some(Blk { ptr: ptr.cast(), len: len * size_of::<T>(), align: align_of::<T>() });
+            let s = unsafe { std::slice::from_raw_parts(ptr.as_ptr(), len) };
+            rep.content_ok = len == pushed && s.iter().enumerate().all(|(i, e)| e.ok(if rev { pushed - 1 - i } else { i }));
+        }
+        Ok(None) => {}
+        Err(p) => {
+            rep.panicked = true;
+            if !p.is::<CallbackPanic>() {
+                rep.unexpected = Some(crate::crash::take_last_panic().unwrap_or_else(|| "panic".into()));
+            }
+        }
+    }
+    let fin = scope.stats();
+    snap(Some(fin), fin, "end", rep);
+}
+
 fn run_try_with_e<'a, A, S, T: Elem, E: Copy + PartialEq + 'static>(err: E, scope: &mut BumpScope<'a, A, S>, spec: &MutSpec, rep: &mut MutReport)
 where
     A: BaseAllocator<S::GuaranteedAllocated> + SlabKind,
@@ -597,5 +663,6 @@ where
         MutKind::Str => run_str(scope, spec, rep),
         MutKind::FmtMut | MutKind::CstrFmtMut => run_fmt(scope, spec, rep),
         MutKind::TryWithMut => by_elem!(run_try_with),
+        MutKind::VecDyn | MutKind::VecRevDyn => by_elem!(run_vec_dyn),
     }
 }
